@@ -580,6 +580,8 @@ pub struct PolCfg {
     pub consistent_locks: bool,
     pub max_weight: usize,
     pub allow_thresh: bool,
+    /// and / or strictly binary (what the compiler requires)
+    pub binary: bool,
 }
 
 pub fn gen_policy(src: &mut Src, cfg: &PolCfg) -> MPol {
@@ -646,13 +648,14 @@ fn gen_pol(src: &mut Src, cfg: &PolCfg, st: &mut State, leaves: usize, depth: us
     if leaves <= 1 || depth > 5 {
         return pol_leaf(src, cfg, st);
     }
-    let n = src.range(2, leaves.min(4));
+    let n = if cfg.binary && !src.chance(1, 4) { 2 } else { src.range(2, leaves.min(4)) };
     let parts = split(src, leaves + 1, n);
     let mut subs = Vec::new();
     for p in parts {
         subs.push(gen_pol(src, cfg, st, p, depth + 1));
     }
-    match src.weighted(&[4, 4, if cfg.allow_thresh { 3 } else { 0 }]) {
+    let only_thresh = cfg.binary && n != 2;
+    match src.weighted(&[if only_thresh { 0 } else { 4 }, if only_thresh { 0 } else { 4 }, if cfg.allow_thresh || only_thresh { 3 } else { 0 }]) {
         0 => MPol::And(subs),
         1 => MPol::Or(subs.into_iter().map(|s| (if cfg.max_weight > 1 && src.chance(1, 3) { src.range(1, cfg.max_weight) } else { 1 }, s)).collect()),
         _ => {
